@@ -61,9 +61,11 @@ ASSUMPTIONS = [
     "(+1e-9 relative); box lengths printed with 4 decimals in the APBS "
     "input are compared with tolerance 1e-4 A; memory figures printed with "
     "3 decimals are compared with tolerance 0.00051 MB",
-    "only cfac, fadd and space are varied; gmemfac, gmemceil, ofrac and "
-    "redfac stay at their defaults (the property's memory figure is the "
-    "200 bytes/point estimate)",
+    "cfac, fadd, space and the memory ceiling gmemceil are varied; gmemfac, "
+    "ofrac and redfac stay at their defaults (the property's memory figure "
+    "is the 200 bytes/point estimate); below 6.854 MB no legal "
+    "per-processor grid exists and a refusal (ValueError) is the right "
+    "answer",
     "the per-processor grid (nsmall) of a parallel suggestion counts as a "
     "grid dimension (APBS puts it into dime for mg-para): it must be "
     "numerically 32k+1 >= 33; integer-ness of the Python type is not "
@@ -128,7 +130,11 @@ def _plabel(cfac, fadd, space):
 
 P27 = [_plabel(c, f, s) for c in P_VALUES["cfac"] for f in P_VALUES["fadd"]
        for s in P_VALUES["space"]]
-P7 = [p for p in P27 if "," not in p]
+# memory ceilings: generous, just above and below the smallest legal
+# per-processor grid (33^3 points x 200 bytes = 6.854 MB)
+P_CEIL = ["gmemceil=50.0", "gmemceil=8.0", "gmemceil=5.0"]
+MIN_GRID_MB = 200.0 * 33 ** 3 / 1024 / 1024
+P7 = [p for p in P27 if "," not in p] + P_CEIL
 P1 = ["default"]
 P4 = ["default", "cfac=1.0", "fadd=0.0", "space=1.0"]
 
@@ -401,6 +407,11 @@ def size_and_check(lines, lctx, plabel, lo, hi, col, case, via="parse_lines",
         stage = "set_all"
         p.set_all()
     except Exception as exc:  # the implementation's failure is the finding
+        if isinstance(exc, ValueError) and stage == "set_all" and \
+                p.gmemceil <= MIN_GRID_MB:
+            # no legal grid fits below such a ceiling: refusing is right
+            col.events["ceiling-below-smallest-grid:refused"] += 1
+            return None
         col.fail(f"C17/sizing/raises:{type(exc).__name__}/layout:{lctx}",
                  {"error": str(exc)[:200], "stage": stage, "via": via,
                   "lines": lines[:4], "params": plabel}, case)
